@@ -14,12 +14,12 @@ Import ListNotations.
 
 (* Bound: the n_sites call sites of raising callees present in the source when the table was
    regenerated (n_sites is part of the generated file).  Every one of them is out of scope,
-   whitelisted with a justification, checked (each class of raises(callee) is caught by an
-   enclosing handler or declared to escape the function), or a listed open defect. *)
-Theorem C01_sites_covered_partial :
-  List.length sites = n_sites /\ forallb (fun s => site_ok s || is_open s) sites = true.
+   whitelisted with a justification, or checked: each class of raises(callee) is caught by an
+   enclosing handler or declared to escape the function (to call sites that are checked in turn). *)
+Theorem C01_sites_covered :
+  List.length sites = n_sites /\ forallb site_ok sites = true.
 Proof. exact sites_all_ok. Qed.
-Print Assumptions C01_sites_covered_partial.
+Print Assumptions C01_sites_covered.
 
 (* what "checked" means, for any site and without computation *)
 Theorem C01_site_check_sound : forall s es,
@@ -44,16 +44,14 @@ Theorem C01_tables_consistent : declared_ok = true /\ classes_known = true /\ ta
 Proof. exact tables_ok. Qed.
 Print Assumptions C01_tables_consistent.
 
-(* full statement "every site is covered" is refuted today by the listed open sites:
-   urllib.parse.urlparse raises ValueError for "http://[::1" and neither render_link_url nor
-   render_link_inventory has a handler *)
-Theorem C01_sites_covered_refuted :
-  open_sites <> [] /\
+(* sites listed as open defects (none today) are really uncovered: the list cannot be used to
+   hide a covered site.  Until commit 3eadb40 it held the two urlparse() sites. *)
+Theorem C01_open_sites_are_uncovered :
   forall f g c i sig, In (f, g, c, i, sig) open_sites ->
     exists s, In s sites /\ site_key_eqb s f g c i = true /\ site_ok s = false /\
               In "ValueError"%string (uncovered s).
-Proof. split; [exact open_sites_nonempty | exact open_sites_uncovered]. Qed.
-Print Assumptions C01_sites_covered_refuted.
+Proof. exact open_sites_uncovered. Qed.
+Print Assumptions C01_open_sites_are_uncovered.
 
 (* (a) component totality.
    1. update_section_level_state never takes max() of an empty set: for every sequence of
